@@ -480,7 +480,7 @@ def session_history(rng, net, mtu, length, p_mut=0.15, p_noise=0.05, p_misc=0.1,
 CHURN_TARGETS = [0, 1, 2, 15, 16, 17, 31, 32, 33, 63, 64, 65, 127, 128, 129, 255, 256, 257, 511, 512, 513, 767, 768, 769, 1023, 1024]
 
 
-def obs_churn(rng, net, m, mtu, mode=None, budget=2500, bridged=False, seq=None, discover_every=0.0):
+def obs_churn(rng, net, m, mtu, mode=None, budget=2500, bridged=False, seq=None, discover_every=0.0, use_mtu=True):
     """A long history that moves the number of pending observations of the station to chosen counts and pokes it there.
 
     Whatever holds the observations between Queries (a list, an array that grows and shrinks, a ring, blocks, a hash) has
@@ -526,7 +526,7 @@ def obs_churn(rng, net, m, mtu, mode=None, budget=2500, bridged=False, seq=None,
 
     def set_mtu(v):
         nonlocal mtu
-        if v != mtu:
+        if v != mtu and use_mtu:
             mtu_changes[len(frames)] = v
             mtu = v
 
